@@ -118,6 +118,19 @@ def traceGo (cells : List MatrixCell) (width : Nat) (offs : List Nat) (start : N
       | r + 1 => traceGo cells width offs start fuel ⟨r, t.col + (rowOff - offs.getD r 0) - 1, next, out⟩
     else traceGo cells width offs start fuel ⟨t.rowIdx, t.col - 1, next, out⟩
 
+/-- the same loop over an array (constant-time indexing; `Lemmas/OptFinish.lean: traceGoA_eq` shows it is `traceGo`) -/
+def traceGoA (cells : Array MatrixCell) (width : Nat) (offs : List Nat) (start : Nat) : Nat → TState → List Nat
+  | 0, t => t.out
+  | fuel + 1, t =>
+    let rowOff := offs.getD t.rowIdx 0
+    let out := if t.matched then (start + t.col + rowOff) :: t.out else t.out
+    let next := (cells.getD (segOf width offs cells.size t.rowIdx + t.col) default).get t.matched
+    if t.matched then
+      match t.rowIdx with
+      | 0 => out
+      | r + 1 => traceGoA cells width offs start fuel ⟨r, t.col + (rowOff - offs.getD r 0) - 1, next, out⟩
+    else traceGoA cells width offs start fuel ⟨t.rowIdx, t.col - 1, next, out⟩
+
 /-- position and cell of `max_by_key(score)` over a slice: the last maximal element -/
 def maxByScore : List ScoreCell → Nat → Option (Nat × ScoreCell) → Option (Nat × ScoreCell)
   | [], _, best => best
@@ -137,7 +150,7 @@ def finish (W N start : Nat) (offs : List Nat) (s : PState) : MRes :=
   | none => none
   | some (e, cell) =>
     let rowOff := offs.getD (N - 2) 0
-    some (cell.score, traceGo (s.cells.take s.off) (W + 1 - N) offs start (W + N + 1)
+    some (cell.score, traceGoA (s.cells.take s.off).toArray (W + 1 - N) offs start (W + N + 1)
       ⟨N - 2, e + (lastOff - rowOff) - 1, (s.cur.getD (e + relLast) default).matched, [start + e + lastOff]⟩)
 
 /-- `fuzzy_match_optimal` after a successful `alloc`, on the window columns; `cur0` / `cells0`: prior content of
